@@ -2,6 +2,7 @@ import SfVerif.Props.C03
 import SfVerif.Lemmas.Codec5
 import SfVerif.Lemmas.GenWriter
 import SfVerif.Lemmas.PLang2
+import SfVerif.Lemmas.Frame3
 /-! C02 — a completed output document is exactly the value that was written. -/
 namespace SfVerif.Props.C02
 open SfVerif SfVerif.Gen
@@ -174,5 +175,191 @@ theorem C02_every_history (ops : List AOp) (hw : ∀ op ∈ ops, op.wf = true)
 /-- non-vacuity: a history with two rejected calls in it that ends complete -/
 example : ((runKeep {} [.w .endArr, .w (.arr 2), .w (.bool true), .w .endArr, .str #[0x61], .w .endArr]).1.finalize).1 = WriteResult_Ok := by
   decide
+
+theorem runKeep_snoc : ∀ (ops : List AOp) (w : Writer) (a : AOp),
+    (runKeep w (ops ++ [a])).1 = (stepA (runKeep w ops).1 a).1
+  | [], w, a => by
+    simp only [List.nil_append, runKeep]
+    split <;> rfl
+  | op :: rest, w, a => by
+    simp only [List.cons_append]
+    rw [runKeep, runKeep]
+    split
+    · exact runKeep_snoc rest _ a
+    · exact runKeep_snoc rest _ a
+
+/-- the write calls a protocol operation issues (`t` = the thread before it): a restart clears the
+    list; a string written by id is the string the id resolves to -/
+def callsStep (t : Thread) (acc : List AOp) : Op → List AOp
+  | .init _ | .deint _ _ | .de _ _ => []
+  | .w api (.bool n) => if api && n > 1 then acc else acc ++ [.w (.bool (n != 0))]
+  | .w _ .null => acc ++ [.w .null]
+  | .w _ (.i32 z) => acc ++ [.w (.i32 z)]
+  | .w _ (.f64 b) => acc ++ [.w (.f64 b)]
+  | .w _ (.str bs) => acc ++ [.str bs]
+  | .w _ (.istr id) => (match t.ctx.interner.get? id with | some bs => acc ++ [.str bs] | none => acc)
+  | .w _ (.obj n) => acc ++ [.w (.obj n)]
+  | .w _ .endobj => acc ++ [.w .endObj]
+  | .w _ (.arr n) => acc ++ [.w (.arr n)]
+  | .w _ .endarr => acc ++ [.w .endArr]
+  | _ => acc
+
+/-- the write calls issued since the current invocation started, after a history -/
+def callsSince (w : Nat) : Thread → List AOp → List Op → List AOp
+  | _, acc, [] => acc
+  | t, acc, op :: rest => callsSince w (t.step w op).1 (callsStep t acc op) rest
+
+/-- string writes in two halves (allocation, later copy) and the typed round-trip convenience are
+    left out of this statement -/
+def Op.wholeWrites : Op → Bool
+  | .w _ (.alloc _) | .w _ (.copy _) | .serrt _ _ => false
+  | _ => true
+
+theorem step_writer (w : Nat) (t : Thread) (acc : List AOp) (op : Op) (hop : Op.wholeWrites op = true)
+    (h : t.ctx.writer = (runKeep {} acc).1) :
+    (t.step w op).1.ctx.writer = (runKeep {} (callsStep t acc op)).1 := by
+  cases op
+  case bad => exact h
+  case width n => exact h
+  case init bs => rfl
+  case root =>
+    simp only [Thread.step, callsStep, Thread.fmtVal_ctx]
+    exact (Ctx.inputGet_keeps _).2.1.trans h
+  case prop s q =>
+    simp only [Thread.step, callsStep]
+    split
+    · exact h
+    · simp only [Thread.fmtVal_ctx]; exact (Ctx.getObjProp_keeps _ _ _).2.1.trans h
+  case iprop s id =>
+    simp only [Thread.step, callsStep]
+    split
+    · exact h
+    · split
+      · exact h
+      · rename_i r hr
+        simp only [Thread.fmtVal_ctx]; exact (Ctx.getInternedObjProp_keeps _ _ _ _ hr).2.1.trans h
+  case idx s i =>
+    simp only [Thread.step, callsStep]
+    split
+    · exact h
+    · simp only [Thread.fmtVal_ctx]; exact (Ctx.getAtIndex_keeps _ _ _).2.1.trans h
+  case key s i =>
+    simp only [Thread.step, callsStep]
+    split
+    · exact h
+    · simp only [Thread.fmtVal_ctx]; exact (Ctx.getKeyAtIndex_keeps _ _ _).2.1.trans h
+  case len s => simp only [Thread.step, callsStep]; split <;> exact h
+  case str s =>
+    simp only [Thread.step, callsStep]
+    split
+    · exact h
+    · split
+      · split <;> exact h
+      · exact h
+  case akind s => simp only [Thread.step, callsStep]; split <;> exact h
+  case alen s => simp only [Thread.step, callsStep]; split <;> exact h
+  case astr s =>
+    simp only [Thread.step, callsStep]
+    split
+    · exact h
+    · split
+      · split <;> exact h
+      · exact h
+      · exact h
+  case akey s i =>
+    simp only [Thread.step, callsStep]
+    split
+    · exact h
+    · split
+      · split
+        · split
+          · exact (Ctx.getKeyAtIndex_keeps _ _ _).2.1.trans h
+          · exact (Ctx.getKeyAtIndex_keeps _ _ _).2.1.trans h
+        · exact (Ctx.getKeyAtIndex_keeps _ _ _).2.1.trans h
+      · exact h
+  case w api tok =>
+    cases tok
+    case bool n =>
+      simp only [Thread.step, callsStep]
+      split
+      · exact h
+      · rw [runKeep_snoc, ← h]; rfl
+    case null => simp only [Thread.step, callsStep]; rw [runKeep_snoc, ← h]; rfl
+    case i32 z => simp only [Thread.step, callsStep]; rw [runKeep_snoc, ← h]; rfl
+    case f64 b => simp only [Thread.step, callsStep]; rw [runKeep_snoc, ← h]; rfl
+    case str bs => simp only [Thread.step, callsStep]; rw [runKeep_snoc, ← h]; rfl
+    case alloc n => simp [Op.wholeWrites] at hop
+    case copy bs => simp [Op.wholeWrites] at hop
+    case istr id =>
+      simp only [Thread.step, callsStep]
+      cases hg : t.ctx.interner.get? id with
+      | none => exact h
+      | some bs => simp only []; rw [runKeep_snoc, ← h]; rfl
+    case obj n => simp only [Thread.step, callsStep]; rw [runKeep_snoc, ← h]; rfl
+    case endobj => simp only [Thread.step, callsStep]; rw [runKeep_snoc, ← h]; rfl
+    case arr n => simp only [Thread.step, callsStep]; rw [runKeep_snoc, ← h]; rfl
+    case endarr => simp only [Thread.step, callsStep]; rw [runKeep_snoc, ← h]; rfl
+  case fin => exact h
+  case outq => exact h
+  case outdoc => exact h
+  case log len seed => exact h
+  case logreq n => exact h
+  case logcopy len seed =>
+    simp only [Thread.step, callsStep]
+    split
+    · exact h
+    · split <;> exact h
+  case logsq => exact h
+  case intern bs => exact h
+  case internreq n => exact h
+  case interncopy bs =>
+    simp only [Thread.step, callsStep]
+    split
+    · exact h
+    · split <;> exact h
+  case cached bs =>
+    simp only [Thread.step, callsStep]
+    split <;> exact h
+  case boxPtr k p l => exact h
+  case boxBool b => exact h
+  case boxNull => exact h
+  case boxErr c => simp only [Thread.step, callsStep]; split <;> exact h
+  case boxNum b => simp only [Thread.step, callsStep]; split <;> exact h
+  case unbox v => exact h
+  case maxlen => exact h
+  case deint ty b =>
+    simp only [Thread.step, callsStep]
+    exact (deRoot_keeps _ _).2.1
+  case de ty d =>
+    simp only [Thread.step, callsStep]
+    exact (deRoot_keeps _ _).2.1
+  case serrt v d => simp [Op.wholeWrites] at hop
+
+theorem run_writer (w : Nat) : ∀ (ops : List Op) (t : Thread) (acc : List AOp),
+    (∀ op ∈ ops, Op.wholeWrites op = true) → t.ctx.writer = (runKeep {} acc).1 →
+    (Thread.run w t ops).1.ctx.writer = (runKeep {} (callsSince w t acc ops)).1
+  | [], _, _, _, h => h
+  | op :: rest, t, acc, hs, h => by
+    simp only [Thread.run, callsSince]
+    exact run_writer w rest _ _ (fun o ho => hs o (List.mem_cons_of_mem _ ho))
+      (step_writer w t acc op (hs op List.mem_cons_self) h)
+
+
+/-- **C02 at the level of a whole thread, every history**: after any history of protocol operations
+    on a thread (reads, logs, interning, new invocations, write calls accepted and rejected in any
+    mixture, strings passed directly or by interned id and written whole), if finalisation reports the
+    output complete, the output bytes are exactly the canonical encoding of one value tree, that tree is
+    the one the accepted write calls since the invocation started describe (a string written by id
+    counting as the bytes the id resolves to), and the independent decoder reads it back. -/
+theorem C02_every_thread_history (w : Nat) (ops : List Op) (hs : ∀ op ∈ ops, Op.wholeWrites op = true)
+    (hwf : ∀ a ∈ callsSince w {} [] ops, a.wf = true)
+    (hfin : ((Thread.run w {} ops).1.ctx.writer.finalize).1 = WriteResult_Ok) :
+    ∃ v : TVal, wfV v = true ∧ v.ser = (runKeep {} (callsSince w {} [] ops)).2 ∧
+      (Thread.run w {} ops).1.ctx.writer.finalize = (WriteResult_Ok, v.enc.toArray) ∧
+      decodeAll (Thread.run w {} ops).1.ctx.writer.out = some v.doc := by
+  have hw := run_writer w ops {} [] hs rfl
+  rw [hw] at hfin ⊢
+  obtain ⟨v, h1, h2, h3, h4⟩ := C02_every_history (callsSince w {} [] ops) hwf hfin
+  exact ⟨v, h2, h1, h3, h4⟩
 
 end SfVerif.Props.C02
